@@ -29,9 +29,16 @@ def main():
     jobs.CURRENT["out"] = out
     limit = float(job.get("op_watchdog_s", 90))
 
+    peak = [0]
+
     def hangwatch():
         while True:
             time.sleep(1.0)
+            n = threading.active_count()
+            if n > peak[0]:
+                peak[0] = n
+            if n > 400:
+                gc.collect()  # pools abandoned by failed executions are only freed (and their idle workers woken) by the collector
             now = time.monotonic()
             for th, (label, t_start) in list(probes.CURRENT_OPS.items()):
                 if now - t_start > limit:
@@ -47,6 +54,7 @@ def main():
     for k, v in B.REACH.items():
         res["reach"][k] = res["reach"].get(k, 0) + v
     res["worker_wall_s"] = time.time() - t0
+    res["peak_threads"] = max(peak[0], threading.active_count())
     with open(out, "w") as f:
         json.dump(res, f, default=repr)
     B.close_all()
